@@ -101,4 +101,58 @@ theorem exists_outermost (stack : List LayerCfg) (req : Req) (hex : ∃ l ∈ st
       · subst e; simpa using ha
       · exact ho l hm
 
+/-! ### sequences -/
+
+theorem eff_kind (l : LayerCfg) (n : Nat) : (eff l n).kind = l.kind := by
+  unfold eff; split <;> rfl
+
+theorem post_eff (l : LayerCfg) (n : Nat) (r : Result) : post (eff l n) r = post l r := by
+  unfold eff; split <;> rfl
+
+/-- without a panic the stateful stack answers exactly like the stateless one on the effective configuration -/
+theorem serveSt_served (sl : List SLayer) (h : Req → Script) (req : Req) (c : Caps) :
+    (serveSt sl h req false c).1 = .served (serve (effStack sl) h req c) := by
+  induction sl generalizing c with
+  | nil => simp [serveSt, serve, effStack]
+  | cons p ls ih =>
+    obtain ⟨l, n⟩ := p
+    by_cases hi : intervenes (eff l n) req = true
+    · simp [serveSt, serve, effStack, hi]
+    · have hi' : intervenes (eff l n) req = false := by simpa using hi
+      have := ih (wrapCaps l.kind c)
+      simp only [effStack] at this
+      simp [serveSt, serve, effStack, hi', this, eff_kind, post_eff]
+
+/-- what an admitted request leaves behind in a layer, whether it returns or panics -/
+def after (p : SLayer) : SLayer := (p.1, leave p.1.kind (enter p.1.kind p.2))
+
+/-- a panicking handler behind passing layers: one invocation, every layer has run exactly its deferred code -/
+theorem serveSt_aborted (sl : List SLayer) (h : Req → Script) (req : Req) (c : Caps)
+    (hp : ∀ l ∈ effStack sl, intervenes l req = false) :
+    serveSt sl h req true c = (.aborted 1, sl.map after) := by
+  induction sl generalizing c with
+  | nil => simp [serveSt]
+  | cons p ls ih =>
+    obtain ⟨l, n⟩ := p
+    have h1 : intervenes (eff l n) req = false := hp _ (by simp [effStack])
+    have h2 : ∀ x ∈ effStack ls, intervenes x req = false := fun x hx => hp x (by
+      simp only [effStack, List.map_cons, List.mem_cons]; exact Or.inr hx)
+    simp [serveSt, h1, ih _ h2, after]
+
+theorem eff_after (p : SLayer) (hb : p.1.kind = Kind.ratelimit → 2 ≤ p.2) :
+    eff (after p).1 (after p).2 = eff p.1 p.2 := by
+  obtain ⟨l, n⟩ := p
+  cases hk : l.kind <;> simp_all [after, eff, enter, leave]
+  omega
+
+theorem effStack_after (sl : List SLayer) (hb : ∀ p ∈ sl, p.1.kind = Kind.ratelimit → 2 ≤ p.2) :
+    effStack (sl.map after) = effStack sl := by
+  induction sl with
+  | nil => rfl
+  | cons p ls ih =>
+    have h1 := eff_after p (hb p (by simp))
+    have h2 := ih (fun q hq => hb q (by simp [hq]))
+    simp only [effStack, List.map_cons, List.map_map] at *
+    simp [h1, h2]
+
 end Stack
